@@ -288,6 +288,9 @@ func ruleC17(w *World, r *Report) {
 			r.check(g, "R17.4", pname, "constructor only on the low <= high edge", w.Pos(c.Pos()), "dominated by !(low > high)", "an inverted range reaches the constructor")
 			// the two numbers come from different tokens: ports[0] and ports[1]
 			i0, i1 := parseUintIndex(lowV), parseUintIndex(highV)
+			if i1 == -1 && w.parsedTokenIsLast(parsePort, highV) {
+				i1 = lastToken
+			}
 			r.check(i0 == 0 && (i1 == 1 || i1 == lastToken), "R17.4", pname, "low ← ports[0], high ← ports[1]", w.Pos(c.Pos()), fmt.Sprintf("indices %d,%d", i0, i1), fmt.Sprintf("low/high parsed from tokens %d and %d", i0, i1))
 		}
 		n := 0
@@ -372,6 +375,46 @@ func parseUintIndex(v ssa.Value) int64 {
 }
 
 const lastToken = int64(-2)
+
+// parsedTokenIsLast: v = extract #0 of strconv.ParseUint(tok, …) where tok is chosen among the tokens of one
+// list by the list's length: every alternative tokens[k] arrives (at the φ that merges them) only when the list
+// has exactly k+1 tokens, so tok is the last token whichever alternative is taken — the same value as
+// tokens[len(tokens)-1].
+func (w *World) parsedTokenIsLast(fn *ssa.Function, v ssa.Value) bool {
+	ex, ok := v.(*ssa.Extract)
+	if !ok {
+		return false
+	}
+	c, ok := ex.Tuple.(*ssa.Call)
+	if !ok || len(c.Call.Args) < 1 {
+		return false
+	}
+	phi, ok := c.Call.Args[0].(*ssa.Phi)
+	if !ok {
+		return false
+	}
+	var list ssa.Value
+	for i, e := range phi.Edges {
+		u, ok := e.(*ssa.UnOp)
+		if !ok {
+			return false
+		}
+		ia, ok := u.X.(*ssa.IndexAddr)
+		if !ok || (list != nil && ia.X != list) {
+			return false
+		}
+		list = ia.X
+		k, isK := constInt(ia.Index)
+		if !isK {
+			return false
+		}
+		n := w.lenIntervalAtEdge(fn, list, phi.Block().Preds[i], phi.Block(), nil)
+		if n.lo != k+1 || n.hi != k+1 {
+			return false
+		}
+	}
+	return list != nil
+}
 
 // pathClass summarises which classification calls were taken true/false along the path,
 // per receiver root parameter.
